@@ -10,7 +10,8 @@ export CGO_LDFLAGS="-L$(pwd)/build -lwasmjitstub"
 python3 tools/gengomod.py /repo harness/go.mod
 mkdir -p build/gomod/repo && python3 tools/gengomod.py /repo build/gomod/repo/go.mod
 python3 tools/genmain.py
-(cd lean/OntVerif && lake build)
+(cd lean/OntVerif && lake build OntVerif)
+(cd lean/OntVerif && for d in OntVerif/Driver/C*.lean; do echo drv-$(basename $d .lean); done | xargs lake build)
 # warm the Go build cache: every harness binary once (checks rebuild them from /repo's working tree anyway)
 cd harness
 ls cmd | xargs -P 6 -I{} sh -c 'if [ "{}" = factgen ]; then go build -o ../build/bin/factgen ./cmd/factgen; else go build -modfile=../build/gomod/repo/go.mod -tags verif -o ../build/bin/hx-{} ./cmd/{}; fi'
